@@ -23,6 +23,9 @@ func main() {
 		repo := fs.String("repo", "/repo", "repository root")
 		fs.Parse(os.Args[2:])
 		must(runGen(*out, *repo))
+	case "c04keys":
+		seed, _ := strconv.ParseUint(os.Args[2], 10, 64)
+		c04Keys(seed, os.Args[3])
 	case "corr":
 		if len(os.Args) < 3 {
 			os.Exit(2)
